@@ -308,7 +308,8 @@ def serialize_to_xml(elements: Iterable[Any],
             chunks.append(f'<!--{item.string_value}-->')
             continue
         elif isinstance(item, ProcessingInstructionNode):
-            chunks.append(f'<?{item.name} {item.string_value}?>'.replace(' ?>', '?>'))
+            value = item.string_value
+            chunks.append(f'<?{item.name} {value}?>' if value else f'<?{item.name}?>')
             continue
         elif not isinstance(item, str):
             raise xpath_error('SENR0001', token=token)
